@@ -431,7 +431,11 @@ fn op(u: &mut U, p: &GenProfile) -> Op {
         19 => Op::IterOpen {
             lo: bound(u),
             hi: bound(u),
-            snap: if u.weighted(&[3, 2]) == 0 { 0 } else { u.range(2, 8) as u8 },
+            snap: match u.weighted(&[3, 2, 2]) {
+                0 => 0,
+                1 => 1,
+                _ => u.range(2, 8) as u8,
+            },
         },
         _ => {
             if u.weighted(&[3, 1]) == 0 {
